@@ -37,8 +37,7 @@ impl Doc {
                 if l.is_empty() { "-".into() } else { l.iter().map(|x| x.to_string()).collect::<Vec<_>>().join(",") }
             ));
         }
-        v.push("END".into());
-        v.join("|")
+        crate::eng_cnf::obs_text(&v, "END")
     }
 }
 
